@@ -65,6 +65,9 @@ def optq(x):
 
 
 def run(ctx):
+    C.source_tie(ctx, 'C19', [
+        dict(file='taurex/contributions/leemie.py', cls='LeeMieContribution', method='prepare_each', coq='gen_lee_sigma',
+             params=['wngrid', 'self.mieRadius', 'self.mieQ'], results=['sigma_mie'], start='wltmp')])
     from taurex.contributions import SimpleCloudsContribution, FlatMieContribution, LeeMieContribution
     rng = ctx.rng
     wn = np.array([500.0, 2000.0, 9000.0])
